@@ -77,6 +77,21 @@ def run(ck):
                     ck.violation(viol, found_input=True)
                     continue
             ck.violation(viol, found_input=False)
+    # end to end: the reported entry-point name mapping names a function that exists in the output
+    ep = ck.harness("c16ep", {"quick": 200, "thorough": 6000}.get(ck.tier, 200))
+    if ep is not None:
+        st = ck.stats.get("c16ep", {})
+        for _ in range(st.get("mappings", 0)):
+            ck.evaluations += 1
+        vf = os.path.join(ep, "ep-violations.txt")
+        if os.path.exists(vf):
+            for l in common.read_lines(vf)[:3]:
+                m = re.match(r'"((?:[^"\\]|\\.)*)" "((?:[^"\\]|\\.)*)" "((?:[^"\\]|\\.)*)"', l)
+                un = lambda x: x.replace("\\n", "\n").replace('\\"', '"').replace("\\\\", "\\")
+                ck.violation({"kind": "entry-point-name-mapping", "what": un(m.group(1)) if m else l[:400],
+                              "wgsl": un(m.group(2)) if m else None, "emitted": un(m.group(3))[:4000] if m else None,
+                              "how": "TranslationInfo.EntryPointNames does not name a function definition of the emitted text "
+                                     "(text read by the independent parser)"}, found_input=True)
 
 
 def search_missing_keyword(ck, out):
